@@ -390,7 +390,7 @@ def check_C18(tier, seed):
     return finish(rep)
 
 
-FMT_PLANS = ["ok", "slow", "fail_after_read", "slow_read", "fail_no_read", "empty", "kill_no_read", "kill_after_read", "kill_mid_read",
+FMT_PLANS = ["ok", "slow", "fail_after_read", "slow_read", "fail_no_read", "empty", "ok_no_read", "ok_partial_read", "kill_no_read", "kill_after_read", "kill_mid_read",
              "kill_mid_output", "term_after_read", "absent"]
 
 
@@ -441,6 +441,13 @@ def check_C19(tier, seed):
         S = F.role_shader(rng)[0] if i % 2 else F.rand_shader(rng, names=True)
         cases.append({"id": "fmt-eq-%04d" % i, "family": "fmt-equivalence", "S": S, "opts": F.opts(rustfmt=True, enc=True, bmv=(i % 3 == 0), mv=["rust", "glam", "nalgebra"][i % 3]),
                       "fmt_plan": "ok", "size_class": "small"})
+    # raw sources whose TEXT contains token-like fragments (" ; ", " , ", "( )", "{ }", quotes): only the program may be reformatted, never the embedded string
+    spaced = ["@group(0) @binding(0) var<uniform> a : vec4<f32> ;\n@fragment\nfn fs_main ( ) -> @location(0) vec4<f32> {\n    var s = vec4<f32> ( 0.0 ) ;\n    for ( var i = 0u ; i < 4u ; i ++ ) { s = s + a ; }\n    return s ;\n}\n",
+              "// a ; b , c ( d ) { e } [ f ] < g > :: h -> i => j ' k \" l \\ m\n@compute @workgroup_size(1) fn cs ( ) { }\n",
+              "/* ; ; ; , , ,  ::  */ @vertex fn vs_main ( ) -> @builtin(position) vec4<f32> { return vec4<f32> ( ) ; }\n"]
+    for i, src in enumerate(spaced + [t for _, t in F.VALID_ODD] + [t for _, t in repo_shaders()]):
+        cases.append({"id": "fmt-raw-%03d" % i, "family": "fmt-equivalence-raw", "wgsl": src, "opts": F.opts(rustfmt=True, bmv=True, mv="glam"), "fmt_plan": "ok", "size_class": "small"})
+        cases.append({"id": "fmt-raw-%03d-fb" % i, "family": "fmt-equivalence-raw", "wgsl": src, "opts": F.opts(rustfmt=True, bmv=True, mv="glam"), "fmt_plan": "fail_after_read", "size_class": "small"})
     by_id = {c["id"]: c for c in cases}
     trace = run_vdriver(cases, "C19_fmt", keep=["mods"], case_timeout=30)
     # sanity: size classes are what they claim; hooks present
